@@ -9,7 +9,8 @@ from ..pyval import fbits, unfbits, spec_to_py, spec_tokens, py_to_spec, py_cano
 RULE = ("value cases = one Python value from the grammar of the property (None, bool, int incl. > 2^64, float incl. NaN "
         "(several payloads), +-inf, -0.0, subnormals, extreme magnitudes, str incl. unicode and near-misses of the reserved "
         "token, NumPy scalars of 8 dtypes, JAX scalars, NumPy/JAX arrays rank 0..3 with dims in 0..3 and dtype "
-        "float64/int64/bool, slices, dicts incl. keys 'type'/'data'/'None', sets, plain lists, nesting to depth 3) pushed through "
+        "float64/int64/bool, slices incl. NumPy-integer members, dicts incl. keys 'type'/'data'/'None', sets, lists of any of "
+        "these, nesting to depth 3) pushed through "
         "make_serializable -> json.dumps -> json.loads -> deserialize and through the dict path; kernel cases = expression "
         "tree (6 kernels, 5 operators, every active_dims form incl. array-likes, parameters as float / int / NumPy scalar / "
         "rank-0 array incl. NaN, inf, subnormal) through to_dict/from_dict/to_json/from_json; refusal cases = objects that "
@@ -20,8 +21,9 @@ PARTIAL = [
     "correspondence only",
     "NaN payload / sign: JSON text keeps only 'NaN', so a NaN comes back as the quiet NaN 0x7ff8000000000000 (normal form "
     "normF canonNaN); 'bits preserved' is proved for every non-NaN double and NaN-ness for NaNs",
-    "value_roundtrip is proved on WF values; numpy.bool_ scalars and NumPy scalars nested in lists / slices are outside WF "
-    "because the code raises TypeError on them (value_roundtrip_counterexample_*; recorded findings)",
+    "tuples come back as lists (JSON has no tuple): the normal form maps a tuple to the list of its elements, so the theorem "
+    "covers tuples up to tuple-vs-list identity; the regression witnesses of the three repaired defects (numpy.bool_, NumPy "
+    "scalars inside lists / slices) are run on every check and must pass",
     "bitwise equality of k / k_grad after the round trip follows in Lean from structural equality (eval_after_roundtrip) for "
     "the model's evaluation; for the JAX evaluation it is checked by the oracle on sampled points",
     "a set holding two distinct NaN objects (possible in Python because nan != nan) comes back with one element; excluded "
@@ -75,9 +77,10 @@ def contains(sp, pred, inside=None):
 
 
 def finding_class(sp):
+    """Signature class of the three defects repaired by the fix commits (used to name a regression)."""
     if contains(sp, lambda s: s[0] == "NB"):
         return "np-bool-scalar"
-    if contains(sp, lambda s: s[0] in ("NI", "NF", "A"), inside=("L", "SL")):
+    if contains(sp, lambda s: s[0] in ("NI", "NF", "A"), inside=("L", "SL", "T")):
         return "numpy-scalar-in-list-or-slice"
     return None
 
@@ -155,7 +158,9 @@ def case_value(ctx, res, p):
             res.oracle_fail("the reserved token 'None' does not read back as None", p, signature="C19:reserved")
     elif expect == "tuple":
         if back[0] != "ok" or not isinstance(back[1], list):
-            res.oracle_fail("a tuple does not come back as a list", p, signature="C19:tuple")
+            cls = finding_class(sp)
+            res.oracle_fail("a tuple does not come back as a list", p,
+                            signature="C19:" + cls if (cls and back == ("err", "TypeError")) else "C19:tuple")
 
     # ---- correspondence with the model (exact)
     if ctx["driver"] is None:
@@ -183,7 +188,7 @@ def case_value(ctx, res, p):
         res.count("wf=T")
     else:
         res.count("wf=F")
-        if expect == "ok" and finding_class(sp) is None:
+        if expect == "ok":
             res.corr_fail("model WF rejects a value of the property grammar", p, detail={"spec": sp})
 
 
@@ -634,8 +639,6 @@ def gen_atom(rng, for_set=False, plain=False):
         return ["F", gen_float_bits(rng)]
     if k == "S":
         s = STRINGS[rng.integers(len(STRINGS))]
-        if plain and rng.random() < 0.1:
-            s = "None"          # inside a list the reserved token is inert
         return ["S", s]
     if k == "NI":
         return gen_npint(rng)
@@ -658,18 +661,33 @@ def gen_array(rng, lib=None, rank=None):
 
 
 def gen_slice(rng):
-    f = lambda: ["N"] if rng.random() < 0.4 else ["I", int(rng.integers(-5, 6))]
+    def f():
+        r = rng.random()
+        if r < 0.4:
+            return ["N"]
+        if r < 0.8:
+            return ["I", int(rng.integers(-5, 6))]
+        return ["NI", int(rng.integers(-5, 6)), ["int64", "int32"][int(rng.integers(2))]]
     return ["SL", f(), f(), f()]
 
 
 def gen_plain_list(rng, depth):
+    """Lists of anything of the grammar (they are rebuilt element-wise since the fix)."""
     n = int(rng.integers(0, 4))
     out = []
     for _ in range(n):
-        if depth > 0 and rng.random() < 0.25:
+        r = rng.random()
+        if depth > 0 and r < 0.2:
             out.append(gen_plain_list(rng, depth - 1))
+        elif depth > 0 and r < 0.35:
+            out.append(gen_value(rng, depth - 1))
+        elif r < 0.5:
+            out.append(gen_array(rng, rank=int(rng.integers(0, 2))))
         else:
-            out.append(gen_atom(rng, plain=True))
+            a = gen_atom(rng)
+            while a == ["S", "None"]:
+                a = gen_atom(rng)
+            out.append(a)
     return ["L", out]
 
 
@@ -842,7 +860,8 @@ def run(ctx, res):
     t0 = time.time()
     mellon()
     V = lambda sp, expect="ok": run_case(ctx, res, {"op": "value", "spec": sp, "expect": expect})
-    # --- fixed witnesses: the reserved token, tuples, and the value classes the code still fails on
+    # --- fixed witnesses: the reserved token, tuples, and regression cases of the three repaired defects (F1: numpy.bool_,
+    # F2: NumPy scalars inside lists / slices) — they must PASS; on a tree without the fixes they are reported as VIOLATION
     V(["S", "None"], "reserved")
     V(["D", [["a", ["S", "None"]]]], "free")
     V(["T", [["I", 1], ["I", 2]]], "tuple")
@@ -851,6 +870,10 @@ def run(ctx, res):
     V(["D", [["flag", ["NB", False]]]])
     V(["L", [["NI", 0, "int64"], ["NI", 1, "int64"]]])
     V(["SL", ["NI", 0, "int64"], ["NI", 2, "int64"], ["N"]])
+    V(["L", [["NB", True], ["NF", fbits(0.5), "float32"], ["A", "np", "i", [2], [1, 2]], ["L", [["NI", 3, "uint8"]]]]])
+    V(["D", [["k", ["L", [["D", [["a", ["NI", 1, "int64"]]]], ["SL", ["N"], ["NI", 2, "int64"], ["N"]]]]]]])
+    V(["L", [["S", "None"]]], "free")          # the reserved token now also applies inside lists
+    V(["T", [["NI", 1, "int64"], ["L", [["N"]]]]], "tuple")
     run_case(ctx, res, {"op": "adform", "ad": ["L", [["NI", 0, "int64"], ["NI", 1, "int64"]]], "d": 3, "kind": "M52"})
     for name in ("bytes", "complex", "frozenset"):
         V(["O", name], "free")
@@ -938,9 +961,8 @@ CLAIM = {
             "state is refused with ValueError; the string 'None' is the only string that does not survive. Tied to /repo by "
             "exact comparison (dtype, shape, bits, structure) of the real functions with the model driver on generated values "
             "and trees, plus an independent bitwise oracle on values and on kernel evaluations.",
-    "note": "json text layer is a contract (JsonCodec); NaN payloads are not kept by JSON text; numpy.bool_ scalars and NumPy "
-            "scalars nested in lists/slices still raise TypeError in the code (recorded findings, excluded by WF with "
-            "counter-example theorems). Correspondence is sampled differential testing.",
+    "note": "json text layer is a contract (JsonCodec); NaN payloads are not kept by JSON text; tuples come back as lists "
+            "(normal form). Correspondence is sampled differential testing.",
     "technique": "Lean 4 proof (mutual structural induction over value and kernel syntax) + exact differential correspondence "
                  "+ bitwise round-trip oracle",
 }
